@@ -32,7 +32,9 @@ SPEC = dict(
                   "JSON number parsing is an external function of the model: where the library's float64 is not strconv's the harness passes its value "
                   "and the monitor reports it",
                   "transmit's batch framing around Payload.MarshalMsg is C26/C22's subject and not driven here"],
-    assumptions=["client maps have unique keys (top level; values with repeated nested keys are compared only up to Go-map semantics)",
+    assumptions=["the model carries one flag per repair of types/payload.go (Model/Payload.lean `Fixed`, `fixedNow`); the oracle runs the flagged "
+                 "variants, which are the unrepaired functions when no flag is set; `*_fixed` theorems state the full property for the repaired variants",
+                 "client maps have unique keys (top level; values with repeated nested keys are compared only up to Go-map semantics)",
                  "application-defined msgpack extension types and non-string map keys are out of scope (not generated)",
                  "a timestamp that is the very last byte sequence of a request body is read by tinylib's NextType as a raw extension and survives; "
                  "the generator keeps timestamps off that position",
